@@ -284,6 +284,47 @@ func init() {
 	// ---- Value methods ----
 	R("(reflect.Value).Kind", func(e *Exec, _ *frame, a []Value) Value { return int64(kindOf(rv(a[0]).t)) })
 	R("(reflect.Value).IsValid", func(e *Exec, _ *frame, a []Value) Value { return rv(a[0]).t != nil })
+	// Pointer/UnsafePointer: an opaque identity, equal exactly for the same map, slice backing array,
+	// pointer target or func (the numbers themselves mean nothing)
+	ptrID := func(e *Exec, a []Value) Value {
+		r := rv(a[0])
+		var key any
+		switch v := r.v.(type) {
+		case *MapObj:
+			if v == nil {
+				return int64(0)
+			}
+			key = v
+		case Slice:
+			if v.arr == nil {
+				return int64(0)
+			}
+			key = &v.arr.cells[v.off]
+		case Ptr:
+			if v.p == nil {
+				return int64(0)
+			}
+			key = v.p
+		case *Closure:
+			if v == nil {
+				return int64(0)
+			}
+			key = v
+		default:
+			e.valueErrorPanic("reflect.Value.Pointer", kindOf(r.t))
+		}
+		if e.ptrIDs == nil {
+			e.ptrIDs = map[any]int64{}
+		}
+		id, ok := e.ptrIDs[key]
+		if !ok {
+			id = int64(0xc000000000) + int64(len(e.ptrIDs)+1)*64
+			e.ptrIDs[key] = id
+		}
+		return id
+	}
+	R("(reflect.Value).Pointer", func(e *Exec, _ *frame, a []Value) Value { return ptrID(e, a) })
+	R("(reflect.Value).UnsafePointer", func(e *Exec, _ *frame, a []Value) Value { return ptrID(e, a) })
 	R("(reflect.Value).IsZero", func(e *Exec, fr *frame, a []Value) Value {
 		r := rv(a[0])
 		if r.t == nil {
